@@ -1041,7 +1041,10 @@ def bad_body(rng, good):
 GAP_KEYS = [["v1", "v101"], ["v1", "v102"], ["v1", "v103"], ["v101"], ["v102"], ["v100"], ["v1", "v2", "v103", "v204", "v306"],
             ["v1", "v400000000"], ["v400000000"], ["v1", "v4294967294"], ["v1", "v4294967295"], ["v4294967295"], ["v0004294967295"],
             ["v1", "v2", "v4294967294", "v4294967295"], ["v001", "v200"], ["v001", "v102"], ["v1", "v50", "v150", "v300", "v4000"],
-            ["v4294967295", "v1"], ["v103", "v1"], ["v1", "v00103", "v4294967295"]]
+            ["v4294967295", "v1"], ["v103", "v1"], ["v1", "v00103", "v4294967295"],
+            # zero-padded keys next to the maximum of their width (v0999, v00099999), after a large gap and before keys past it
+            ["v0950", "v1005"], ["v1", "v0950", "v1005"], ["v0998", "v0999", "v1000"], ["v0500", "v0999", "v1000", "v1101"],
+            ["v00099990", "v100010"], ["v001", "v0950", "v01005", "v1100"], ["v099", "v100", "v0300", "v1000"]]
 
 
 def gen_vkeys(rng):
@@ -1050,6 +1053,18 @@ def gen_vkeys(rng):
         # gaps around MAX_MISSING_VERSIONS_LISTED (serde.rs:1313) and numbers up to u32::MAX
         if rng.random() < 0.75:
             return list(rng.choice(GAP_KEYS))
+        if rng.random() < 0.35:
+            # padded keys around the maximum of their width, mixed with keys of other widths, small and large gaps
+            w = rng.choice([2, 3, 4, 4, 5, 7])
+            mx = 10 ** (w - 1) - 1
+            n = max(1, mx - rng.choice([0, 1, 5, 49, 60, 101, 400]))
+            ks = (["v1"] if rng.random() < 0.4 else []) + ["v" + str(n).rjust(w, "0")]
+            m = n
+            for _ in range(rng.randint(1, 3)):
+                m = m + rng.choice([1, 2, 40, 55, 99, 100, 101, 150])
+                w2 = rng.choice([0, 0, w, w + 1])
+                ks.append("v" + str(m).rjust(w2, "0"))
+            return list(dict.fromkeys(ks))
         a = rng.randint(1, 3)
         g = rng.choice([98, 99, 100, 101, 102, 1000, 10 ** 6, 4 * 10 ** 9])
         ks = ["v%d" % i for i in range(1, a + 1)] + ["v%d" % min(U32, a + 1 + g)]
@@ -1078,11 +1093,11 @@ def gen_vkeys(rng):
     return []
 
 
-def fam_versions(rng, obj):
+def fam_versions(rng, obj, fixed_keys=None):
     t = jload_pairs(open(os.path.join(obj, "inventory.json"), "rb").read())
     bodies = [v for _, v in first(t, "versions")]
-    keys = gen_vkeys(rng)
-    if keys and rng.random() < 0.1:
+    keys = list(fixed_keys) if fixed_keys else gen_vkeys(rng)
+    if keys and not fixed_keys and rng.random() < 0.1:
         keys.append(rng.choice(keys))
     vers, abst = O(), []
     for k in keys:
@@ -1499,7 +1514,7 @@ def build_case(spec, dest):
     elif fam == "structure":
         kind = fam_structure(rng, obj, allow_deep=spec.get("allow_deep", True))
     elif fam == "versions":
-        kind, corr = fam_versions(rng, obj)
+        kind, corr = fam_versions(rng, obj, spec.get("vkeys"))
     elif fam == "header":
         kind, corr = fam_header(rng, obj)
     elif fam in ("known", "regress"):
@@ -1688,6 +1703,10 @@ def make_specs(ctx, bases, libs, vh, rocfl):
     for _ in range(n["versions"]):
         nm = rng.choice(["lib-sha512", "lib-sha256"])
         add("versions", (nm, libs[nm]))
+    # every listed key set once (gaps, numeric maxima, padded keys at the maximum of their width), not only when drawn
+    for ks in GAP_KEYS:
+        nm = rng.choice(["lib-sha512", "lib-sha256"])
+        add("versions", (nm, libs[nm]), vkeys=list(ks))
     for _ in range(n["header"]):
         nm = rng.choice(["lib-sha512", "lib-sha256"])
         add("header", (nm, libs[nm]))
@@ -1702,7 +1721,7 @@ def pmap(fn, items, workers):
 
 
 def spec_public(s):
-    return {k: s[k] for k in ("family", "seed", "base_name", "which", "arg", "shape", "j", "k", "allow_deep") if k in s}
+    return {k: s[k] for k in ("family", "seed", "base_name", "which", "arg", "shape", "j", "k", "allow_deep", "vkeys") if k in s}
 
 
 def evaluate(ctx, specs, results):
